@@ -259,6 +259,18 @@ package soyhtml
 //@   at call io.WriteString#* assert[no-write-after-failure] !werr
 //@   at call io.WriteString#* after set werr = werr || res1 != nil
 //@   ensures[write-failure-surfaces] !werr
+//@   ghost ph *ast.MsgPlaceholderNode = nil
+//@   ghost pl *ast.MsgPluralNode = nil
+//@   ghost pci int = 0
+//@   at call io.WriteString#0 assert[raw-text-part-verbatim;C11] arg0 == s.wr && typeis(parts[rangeindex+1], soymsg.RawTextPart) && same(arg1, unbox(parts[rangeindex+1], soymsg.RawTextPart).Text)
+//@   at call (*MsgNode).Placeholder#0 assert[placeholder-looked-up-in-this-message-by-the-part's-name;C11] arg0 == msgNode && typeis(parts[rangeindex+1], soymsg.PlaceholderPart) && same(arg1, unbox(parts[rangeindex+1], soymsg.PlaceholderPart).Name)
+//@   at call (*MsgNode).Placeholder#0 after set ph = res
+//@   at call (*state).walk#0 assert[the-found-placeholder's-body-is-rendered;C11] arg0 == s && ph != nil && arg1 == ph.Body
+//@   at call (*state).findPluralNode#0 assert[plural-node-looked-up-in-this-message-by-the-part's-variable;C11] arg1 == msgNode && typeis(parts[rangeindex+1], soymsg.PluralPart) && same(arg2, unbox(parts[rangeindex+1], soymsg.PluralPart).VarName)
+//@   at call (*state).findPluralNode#0 after set pl = res
+//@   at call (*state).eval#0 assert[the-plural-node's-value-selects;C11] pl != nil && arg1 == pl.Value
+//@   at call soymsg.Bundle.PluralCase#0 after set pci = res
+//@   at call (*state).evalMsgParts#0 assert[the-bundle's-plural-case-of-this-part;C11] arg0 == s && arg1 == msgNode && typeis(parts[rangeindex+1], soymsg.PluralPart) && 0 <= pci && pci < len(unbox(parts[rangeindex+1], soymsg.PluralPart).Cases) && sameslice(arg2, unbox(parts[rangeindex+1], soymsg.PluralPart).Cases[pci].Parts)
 //@   loop 0
 //@     invariant !werr
 //@     noterm
@@ -469,17 +481,33 @@ package soyhtml
 //@   like stateMethod
 //@   trustedensures[frames-kept;C02] len(s.context) == old(len(s.context)) && forall(i, 0, len(s.context), s.context[i].vars == old(s.context[i].vars) && s.context[i].entered == old(s.context[i].entered) && unchangedmap(s.context[i].vars)) && forall(i, 0, len(s.context), old(s.context)[i].vars == old(s.context[i].vars)) && otherarraysunchanged(s.context) && (base(s.context) == old(base(s.context)) || base(s.context) >= old(allocmark()))
 //@   nosafety
+//@   ghost gm *soymsg.Message = nil
+//@   at call (*state).walkMsgBody#0 assert[without-a-bundle-the-source-is-rendered;C11] arg0 == s && isnil(s.msgs) && arg1 == node.Body
+//@   at call soymsg.Bundle.Message#0 assert[looked-up-by-this-message's-id;C11] arg1 == node.ID
+//@   at call soymsg.Bundle.Message#0 after set gm = res
+//@   at call (*state).walkMsgBody#1 assert[a-message-missing-from-the-bundle-falls-back-to-the-source;C11] arg0 == s && gm == nil && arg1 == node.Body
+//@   at call (*state).evalMsgParts#0 assert[the-translation's-parts-for-this-message;C11] arg0 == s && arg1 == node && gm != nil && sameslice(arg2, gm.Parts)
 //@ func (*state).findPluralNode
 //@   like stateMethod
 //@   nosafety
+//@   ensures[found-is-a-top-level-plural-of-the-message-with-that-variable;C11] result != nil && result.VarName == pluralVarName
 //@ func (*state).walkPlural
 //@   like stateMethod
 //@   trustedensures[frames-kept;C02] len(s.context) == old(len(s.context)) && forall(i, 0, len(s.context), s.context[i].vars == old(s.context[i].vars) && s.context[i].entered == old(s.context[i].entered) && unchangedmap(s.context[i].vars)) && forall(i, 0, len(s.context), old(s.context)[i].vars == old(s.context[i].vars)) && otherarraysunchanged(s.context) && (base(s.context) == old(base(s.context)) || base(s.context) >= old(allocmark()))
 //@   nosafety
+//@   at call (*state).eval#0 assert[the-plural's-own-value;C11] arg0 == s && arg1 == node.Value
+//@   ghost gv data.Value = nil
+//@   at call (*state).eval#0 after set gv = res
+//@   at call (*state).walkMsgBody#1 assert[the-case-whose-number-matches;C11] arg0 == s && typeis(gv, data.Int) && node.Cases[rangeindex+1].Value == unbox(gv, data.Int) && arg1 == node.Cases[rangeindex+1].Body
+//@   at call (*state).walkMsgBody#0 assert[no-case-matches-then-the-default;C11] arg0 == s && arg1 == node.Default
 //@ func (*state).walkMsgBody
 //@   like stateMethod
 //@   trustedensures[frames-kept;C02] len(s.context) == old(len(s.context)) && forall(i, 0, len(s.context), s.context[i].vars == old(s.context[i].vars) && s.context[i].entered == old(s.context[i].entered) && unchangedmap(s.context[i].vars)) && forall(i, 0, len(s.context), old(s.context)[i].vars == old(s.context[i].vars)) && otherarraysunchanged(s.context) && (base(s.context) == old(base(s.context)) || base(s.context) >= old(allocmark()))
 //@   nosafety
+//@   at call ast.ParentNode.Children#0 assert[the-body's-own-children;C11] arg0 == node
+//@   at call (*state).walk#0 assert[source-text-is-rendered;C11] arg0 == s && typeis(arg1, *ast.RawTextNode) && unbox(arg1, *ast.RawTextNode) == n
+//@   at call (*state).walk#1 assert[source-placeholder-renders-its-body;C11] arg0 == s && arg1 == n.Body
+//@   at call (*state).walkPlural#0 assert[source-plural-is-rendered;C11] arg0 == s && arg1 == n
 //@ func (*state).evalCall
 //@   like stateMethod
 //@   noconvcontents
